@@ -1,6 +1,7 @@
 (** Property C13 -- scrollback retention is bounded by the configured limit.
     Only pinned statements, closed by [exact], with their assumptions printed. *)
 From Avt Require Import Oracles.Step Proofs.Inv Proofs.BufScroll Proofs.InvTerm Proofs.InvStep.
+From Avt Require Import Gen.BufFns Proofs.BufTie.
 
 (** For every size, every limit L and every session: after any feed_str / resize call has returned, lines() holds at most rows + L + L/10 lines (exactly rows when L = 0), and exactly the visible rows while the alternate screen is showing. *)
 Theorem C13_run : forall c r l ops o v, 1 <= c -> 1 <= r -> Forall op_ok (ops ++ [o]) -> match o with Feed _ => False | _ => True end -> runM (vt_new c r l) (ops ++ [o]) = Ok v -> holds_C13 v = true.
@@ -23,3 +24,9 @@ Theorem C13_limit_le : forall l s h, limit_of l = Some (s, h) -> (s <= h)%N.
 Proof. exact limit_of_le. Qed.
 Check C13_limit_le : forall l s h, limit_of l = Some (s, h) -> (s <= h)%N.
 Print Assumptions C13_limit_le.
+
+(** SOURCE TIE BY PROOF: the function is REGENERATED from the Rust source on every run (Gen/BufFns.v, translate/buf2coq.py: slice and Vec idioms into the model's list primitives, every Rust panic condition as a guard) and the hand-written model function is proved equal to it (=~ : equal up to the panic-site number) - an edit to the Rust function breaks this theorem (Buffer::gc / trim_scrollback: the `size > hard` test, `excess = size - soft`, `drain(..excess)`) *)
+Theorem C13_source_gc : forall b, res_map drained (g_buffer_gc b) =~ buf_gc b.
+Proof. exact tie_buffer_gc. Qed.
+Check C13_source_gc : forall b, res_map drained (g_buffer_gc b) =~ buf_gc b.
+Print Assumptions C13_source_gc.
